@@ -51,6 +51,34 @@ static void op_epoch_frames(int nt, char **t) {
     }
 }
 
+/* epoch_ticks <sec> <nsec> <step_ns> <rounds>: a clock that advances by step_ns after every reading; beacon, probe
+ * response and timing advertisement generated in succession, <rounds> times: per frame "timestamp/readings taken" */
+static void op_epoch_ticks(int nt, char **t) {
+    (void) nt;
+    clk_sec = tok_ll(t[1]); clk_nsec = tok_ll(t[2]); clk_step_ns = tok_ll(t[3]);
+    int rounds = (int) tok_ll(t[4]);
+    unsigned char a[6] = {1, 2, 3, 4, 5, 6};
+    unsigned char buf[512];
+    printf("epoch_ticks");
+    for (int k = 0; k < rounds; k++) {
+        for (int kind = 0; kind < 3; kind++) {
+            size_t n = 0; int r; int c0 = clk_calls;
+            if (kind == 0) { struct libwifi_beacon b; LIB(r = libwifi_create_beacon(&b, a, a, a, "x", 1));
+                             if (r == 0) LIB(n = libwifi_dump_beacon(&b, buf, sizeof buf)); LIB(libwifi_free_beacon(&b)); }
+            else if (kind == 1) { struct libwifi_probe_resp b; LIB(r = libwifi_create_probe_resp(&b, a, a, a, "x", 1));
+                             if (r == 0) LIB(n = libwifi_dump_probe_resp(&b, buf, sizeof buf)); LIB(libwifi_free_probe_resp(&b)); }
+            else { struct libwifi_timing_advert b; struct libwifi_timing_advert_fields f; memset(&f, 0, sizeof f);
+                             LIB(r = libwifi_create_timing_advert(&b, a, a, a, &f, "GB", 1, 1, 1, 1));
+                             if (r == 0) LIB(n = libwifi_dump_timing_advert(&b, buf, sizeof buf)); LIB(libwifi_free_timing_advert(&b)); }
+            if (r == 0 && n >= 32 && n <= sizeof buf) {
+                unsigned long long v = 0; for (int i = 7; i >= 0; i--) v = (v << 8) | buf[24 + i];
+                printf(" %llu/%d", v, clk_calls - c0);
+            } else printf(" err");
+        }
+    }
+    clk_step_ns = 0;
+}
+
 /* tagname <int>: the returned string, after checking the pointer is readable and NUL-terminated */
 static void op_tagname(int nt, char **t) {
     (void) nt;
@@ -147,6 +175,7 @@ const struct op ops_misc[] = {
     {"epoch", op_epoch},
     {"epoch2", op_epoch2},
     {"epoch_frames", op_epoch_frames},
+    {"epoch_ticks", op_epoch_ticks},
     {"randmac", op_randmac},
     {"cap", op_cap},
     {"crc", op_crc},
